@@ -29,6 +29,7 @@ namespace
 
   bool g_active = false;
   std::string g_tests_dir = "/repo/tests";
+  std::string g_fixtures_dir;	// second place to look for a sample file
   std::map <std::string, override_ent> *g_overrides;
   std::set <std::string> *g_primaries;
   std::string *g_fd_vpath[MAXFD];	// non-null: tracked and open
@@ -71,6 +72,22 @@ namespace
     return slash + 1;
   }
 
+  std::string
+  default_backing (char const *path)
+  {
+    typedef int (*access_t) (char const *, int);
+    static access_t r_access = real <access_t> ("access");
+    std::string rest = virt_rest (path);
+    std::string p = g_tests_dir + "/" + rest;
+    if (! g_fixtures_dir.empty () && r_access (p.c_str (), F_OK) != 0)
+      {
+	std::string q = g_fixtures_dir + "/" + rest;
+	if (r_access (q.c_str (), F_OK) == 0)
+	  return q;
+      }
+    return p;
+  }
+
   // Returns 0 and sets REAL, or an errno.
   int
   resolve (char const *path, std::string &realp)
@@ -81,12 +98,12 @@ namespace
 	if (it->second.open_errno != 0)
 	  return it->second.open_errno;
 	if (it->second.backing.empty ())
-	  realp = g_tests_dir + "/" + virt_rest (path);
+	  realp = default_backing (path);
 	else
 	  realp = it->second.backing;
 	return 0;
       }
-    realp = g_tests_dir + "/" + virt_rest (path);
+    realp = default_backing (path);
     return 0;
   }
 
@@ -188,6 +205,12 @@ void
 fs_set_tests_dir (std::string const &dir)
 {
   g_tests_dir = dir;
+}
+
+void
+fs_set_fixtures_dir (std::string const &dir)
+{
+  g_fixtures_dir = dir;
 }
 
 void
